@@ -778,7 +778,117 @@ def rule_r13(ctx) -> RuleResult:
                   min_instances=2)
 
 
+def rule_r14(ctx) -> RuleResult:
+    """get_page and the parser match `title.lower()` against namespace_prefixes(ns): with lower=True every returned prefix has
+    to be lower-cased, the canonical (English) key included -- otherwise `Template:foo` on a non-English edition is not
+    recognised and the local prefix is prepended a second time.  Decided by a two-point abstraction (all strings lowered /
+    possibly not) over the function specialised for lower=True."""
+    rr = RuleResult("C10.R14", "with lower=True every prefix namespace_prefixes returns has been lower-cased", min_instances=1)
+    dotted = "core.Wtp.namespace_prefixes"
+    fn = ctx.fn(dotted)
+    params = [a.arg for a in fn.args.args]
+    if "lower" not in params:
+        raise AnalysisError("namespace_prefixes: parameter `lower` vanished")
+    neutral = {a for a in params if a not in ("self", "lower", "ns_id")}  # the suffix parameter: punctuation
+    L_, U_ = True, False
+
+    class Unknown(Exception):
+        pass
+
+    def ev(e, env) -> bool:
+        if isinstance(e, ast.Constant):
+            return not isinstance(e.value, str) or e.value == e.value.lower()
+        if isinstance(e, ast.Name):
+            if e.id in neutral:
+                return L_
+            return env.get(e.id, U_)
+        if isinstance(e, ast.Call):
+            if isinstance(e.func, ast.Attribute) and e.func.attr in ("lower", "casefold") and not e.args:
+                return L_
+            if isinstance(e.func, ast.Name) and e.func.id in ("tuple", "list", "set", "sorted", "reversed", "frozenset") and len(e.args) == 1:
+                return ev(e.args[0], env)
+            if isinstance(e.func, ast.Name) and e.func.id == "map" and len(e.args) == 2 and isinstance(e.args[0], ast.Lambda) \
+                    and len(e.args[0].args.args) == 1:
+                env2 = dict(env)
+                env2[e.args[0].args.args[0].arg] = ev(e.args[1], env)
+                return ev(e.args[0].body, env2)
+            if isinstance(e.func, ast.Attribute) and e.func.attr in ("strip", "lstrip", "rstrip", "removesuffix", "removeprefix", "replace"):
+                return ev(e.func.value, env) and all(ev(a, env) for a in e.args)
+            if isinstance(e.func, ast.Attribute) and e.func.attr == "join" and len(e.args) == 1:
+                return ev(e.func.value, env) and ev(e.args[0], env)
+            return U_
+        if isinstance(e, ast.BinOp) and isinstance(e.op, ast.Add):
+            return ev(e.left, env) and ev(e.right, env)
+        if isinstance(e, (ast.Tuple, ast.List, ast.Set)):
+            return all(ev(x.value if isinstance(x, ast.Starred) else x, env) for x in e.elts)
+        if isinstance(e, ast.IfExp):
+            if isinstance(e.test, ast.Name) and e.test.id == "lower":
+                return ev(e.body, env)
+            if isinstance(e.test, ast.UnaryOp) and isinstance(e.test.op, ast.Not) and isinstance(e.test.operand, ast.Name) and e.test.operand.id == "lower":
+                return ev(e.orelse, env)
+            return ev(e.body, env) and ev(e.orelse, env)
+        if isinstance(e, (ast.ListComp, ast.GeneratorExp, ast.SetComp)) and len(e.generators) == 1 and isinstance(e.generators[0].target, ast.Name):
+            env2 = dict(env)
+            env2[e.generators[0].target.id] = ev(e.generators[0].iter, env)
+            return ev(e.elt, env2)
+        if isinstance(e, ast.JoinedStr):
+            return all(ev(v.value, env) if isinstance(v, ast.FormattedValue) else ev(v, env) for v in e.values)
+        if isinstance(e, ast.Subscript):
+            return ev(e.value, env) if isinstance(e.value, ast.Name) and e.value.id in env else U_
+        return U_
+
+    returns = []
+
+    def run(stmts, env):
+        for st in stmts:
+            if isinstance(st, ast.Assign) and len(st.targets) == 1 and isinstance(st.targets[0], ast.Name):
+                env[st.targets[0].id] = ev(st.value, env)
+            elif isinstance(st, ast.AugAssign) and isinstance(st.target, ast.Name):
+                env[st.target.id] = env.get(st.target.id, U_) and ev(st.value, env)
+            elif isinstance(st, ast.Expr) and isinstance(st.value, ast.Call) and isinstance(st.value.func, ast.Attribute) \
+                    and st.value.func.attr in ("append", "extend", "add", "insert") and isinstance(st.value.func.value, ast.Name):
+                nm = st.value.func.value.id
+                env[nm] = env.get(nm, U_) and all(ev(a, env) for a in st.value.args[-1:])
+            elif isinstance(st, ast.If):
+                t = st.test
+                if isinstance(t, ast.Name) and t.id == "lower":
+                    run(st.body, env)
+                elif isinstance(t, ast.UnaryOp) and isinstance(t.op, ast.Not) and isinstance(t.operand, ast.Name) and t.operand.id == "lower":
+                    run(st.orelse, env)
+                else:
+                    e1, e2 = dict(env), dict(env)
+                    run(st.body, e1)
+                    run(st.orelse, e2)
+                    for k in set(e1) | set(e2):
+                        env[k] = e1.get(k, U_) and e2.get(k, U_)
+            elif isinstance(st, ast.For):
+                # loop variables over unknown data are unlowered; two passes reach the fixed point of this two-point domain
+                for nm in [n.id for n in ast.walk(st.target) if isinstance(n, ast.Name)]:
+                    env[nm] = ev(st.iter, env) if isinstance(st.target, ast.Name) else U_
+                run(st.body, env)
+                run(st.body, env)
+            elif isinstance(st, ast.Return):
+                if st.value is not None:
+                    returns.append((st, ev(st.value, env)))
+            elif isinstance(st, (ast.With, ast.Try, ast.While)):
+                raise AnalysisError("namespace_prefixes: statement kind {} outside the interpreted fragment".format(type(st).__name__))
+
+    run([s_ for s_ in fn.body if not (isinstance(s_, ast.Expr) and isinstance(s_.value, ast.Constant))], {})
+    nonempty = [(r, ok) for r, ok in returns if not (isinstance(r.value, (ast.Tuple, ast.List)) and not r.value.elts)]
+    if not nonempty:
+        raise AnalysisError("namespace_prefixes: no return of prefixes found")
+    for r, ok in nonempty:
+        if ok:
+            rr.ok(dotted, "every string reaching `{}` is lower-cased when lower=True".format(unparse(r)[:60]))
+        else:
+            rr.bad(Finding("C10.R14", CORE, dotted, unparse(r)[:80],
+                           "with lower=True a prefix can be returned in its original case, but get_page and the parser match the result "
+                           "against title.lower(): the canonical English prefix on a non-English edition (`Template:foo` under lang_code='fr') "
+                           "is not recognised and the page is looked up as `Modèle:Template:foo`", r.lineno))
+    return rr
+
+
 def run(ctx) -> list:
     sf = SqlFacts(ctx.index)
     return [rule_r1(ctx, sf), rule_r2(ctx, sf), rule_r3(ctx, sf), rule_r4(ctx, sf), rule_r5(ctx, sf), rule_r6(ctx, sf),
-            rule_r7(ctx, sf), rule_r8(ctx), rule_r9(ctx), rule_r10(ctx), rule_r11(ctx, sf), rule_r12(ctx, sf), rule_r13(ctx)]
+            rule_r7(ctx, sf), rule_r8(ctx), rule_r9(ctx), rule_r10(ctx), rule_r11(ctx, sf), rule_r12(ctx, sf), rule_r13(ctx), rule_r14(ctx)]
